@@ -116,7 +116,7 @@ Definition unchanged (a b : obs) : bool :=
 
 Definition is_open (o : obs) : bool := match omode o with Some _ => true | None => false end.
 
-Definition c17_eng (prev : obs) (o : op) (cur : obs) : bool :=
+Definition c17_eng0 (prev : obs) (o : op) (cur : obs) : bool :=
   match o with
   | OWrite _ =>
       (* data changes and the write succeeds only if open and RW/WO; closed: refused *)
@@ -142,6 +142,23 @@ Definition c17_eng (prev : obs) (o : op) (cur : obs) : bool :=
       negb (serving cur)
   | _ => true
   end.
+
+(** The action table keys on the reported state, so the reported state has to stay truthful: a replica
+    that reports "rebuilding" keeps reporting it across every request that does not end the rebuild or
+    close the replica (I/O, mode and counter requests, refused opens), whatever else those requests set
+    (the in-memory dirty flag in particular). *)
+Definition keeps_rebuild (o : op) : bool :=
+  match o with
+  | OWrite _ | OWriteFail _ | ORead | OSetMode _ | OSetRev _ | OSetRevFail _ | OGetRevFail
+  | OOpen | OOpenBadCounter | OOpenFail => true
+  | _ => false
+  end.
+Definition c17_status (prev : obs) (o : op) (cur : obs) : bool :=
+  if keeps_rebuild o && rstate_eqb (ostate prev) SRebuilding && is_open cur
+  then rstate_eqb (ostate cur) SRebuilding else true.
+
+Definition c17_eng (prev : obs) (o : op) (cur : obs) : bool :=
+  c17_eng0 prev o cur && c17_status prev o cur.
 
 Definition c17_step (prev : obs) (t : top) (cur : obs) : bool :=
   match t with
